@@ -169,6 +169,8 @@ def run(out, tier, model_ok=True):
       rng.shuffle(cls)          # interleave the classes: positions matter to the generators, not to the count
       if tier == 'quick' and n == max_n:
         sts = rng.sample(settings, 3)
+      elif tier != 'quick' and n >= 6:
+        sts = rng.sample(settings, 10 if n == 6 else 3)      # keeps the thorough tier within tens of minutes
       else:
         sts = settings
       for s in sts:
@@ -232,7 +234,7 @@ def run(out, tier, model_ok=True):
     out.count((json.dumps(counts, sort_keys=True), json.dumps(case['setting'], sort_keys=True)))
   out.extra.update({'large_vectors': len(big_jobs), 'large_vectors_above_2^53': n_big_over})
   out.rule = ('all multisets of the six admitted eligibility classes with <= %d geos (class positions shuffled), each under %d '
-              'size-range / geo-ratio settings (quick: a sample of 3 settings at the largest size); compared: count_max_designs, '
+              'size-range / geo-ratio settings (quick: a sample of 3 settings at the largest size; thorough: all settings up to 5 geos, 10 at 6, 3 at 7); compared: count_max_designs, '
               'length and distinctness of the generator listing, brute-force count of legal assignments, and the Lean model '
               '(count, listing order); plus large class vectors (20-60 geos, counts up to 3^60) compared with the exact number of legal assignments; non-trivial = positive count; distinct by (class vector, setting)' % (max_n, len(settings)))
   out.extra.update({'cases': len(jobs), 'max_geos': max_n, 'settings': len(settings),
